@@ -775,6 +775,16 @@ func oracleFmt(prop, x string, p *gen.Prog, res *core.ShardResult) *core.Violati
 		if !reflect.DeepEqual(d1, d2) {
 			return &core.Violation{Clause: "docstrings-kept", Detail: fmt.Sprintf("docstrings before %q after %q for input %s (formatted %s)", d1, d2, qx, core.Trunc(strconv.Quote(f1), 300))}
 		}
+		// independent of the tree: every line of the input that starts with '#' and says something is
+		// a comment or a docstring (nothing else can start a line with '#' in a file that parses), and
+		// its text must be found on a '#' line of the formatted text
+		want := hashLines(x)
+		have := hashLines(f1)
+		for txt, n := range want {
+			if have[txt] < n {
+				return &core.Violation{Clause: "comment-lines-kept", Detail: fmt.Sprintf("the input holds %d line(s) \"#%s\", the formatted text %d: input %s (formatted %s)", n, txt, have[txt], qx, core.Trunc(strconv.Quote(f1), 300))}
+			}
+		}
 		if len(c1) > 0 {
 			res.Distinct(core.Hash64(x))
 			res.Sample(map[string]any{"input": x, "comments": c1}, 3)
@@ -782,6 +792,21 @@ func oracleFmt(prop, x string, p *gen.Prog, res *core.ShardResult) *core.Violati
 		}
 	}
 	return nil
+}
+
+// hashLines counts, by trimmed text, the lines whose first non-blank character is '#' (empty ones left out).
+func hashLines(x string) map[string]int {
+	out := map[string]int{}
+	for _, line := range strings.Split(x, "\n") {
+		line = strings.TrimSpace(line)
+		if !strings.HasPrefix(line, "#") {
+			continue
+		}
+		if txt := strings.TrimSpace(strings.TrimPrefix(line, "#")); txt != "" {
+			out[txt]++
+		}
+	}
+	return out
 }
 
 func firstLine(s string) string {
